@@ -202,6 +202,19 @@ theorem C11_predictor_accepts_window0 (cfg : Cfg) (m : WModel) (hm : WFModel0 m)
     (fun tm htm d hd => ⟨(ht.char_ok tm htm d hd).1, (hw tm htm).1 d hd⟩)
     (fun tm htm d hd => ⟨(ht.type_ok tm htm d hd).1, (hw tm htm).2 d hd⟩) pt hcfg
 
+/-- `C11_predict_total` for windows 0..255: the predictor built from a `WFModel0` (with well-formed tag models) predicts and
+tags ANY non-empty text without panicking, with or without score storing — `--charw 0` / `--typew 0` included, whatever the
+n-grams of the switched-off kind are -/
+theorem C11_predict_total_window0 (cfg : Cfg) (m : WModel) (hm : WFModel0 m) (ht : WFTags m) (pt : Bool) (p : Predictor)
+    (hp : Predictor.new cfg m pt = .ok p) (store : Bool) (s : Sentence) (hs : SentOK s) (pid : Nat) :
+    ∃ s1, p.predict pid s = .ok s1 ∧
+      (pt = true → ∃ s2, ({ p with storeTagScores := store } : Predictor).predictTags s1 = .ok s2) := by
+  obtain ⟨s1, h1, _⟩ := C01_scores_window0 cfg m hm pt p hp s hs pid
+  refine ⟨s1, h1, fun hpt => ?_⟩
+  subst hpt
+  exact C06L.predictTags_total0 cfg m hm.char_shape hm.type_shape (fun d hd => (hm.dict_shape d hd).1) ht.toL p hp store
+    s s1 hs.text_ne hs.types_eq hs.bounds_len pid h1
+
 /-- **end to end, windows 0..255** (C09 ∘ C11 ∘ C01): as `C11_trained_predictor_scores` without the lower bounds on the
 windows -/
 theorem C11_trained_predictor_scores_window0 (tc : TrainCfg) (hc : CfgOK tc) (hcw : tc.charW ≤ 255)
@@ -268,6 +281,17 @@ example : WFTags C01_exModel0 ∧
     (∀ tm ∈ C01_exModel0.tagModels, (∀ d ∈ tm.charNgrams, d.weights ≠ []) ∧ (∀ d ∈ tm.typeNgrams, d.weights ≠ [])) :=
   ⟨⟨by decide, by decide, by decide, by decide⟩, by decide⟩
 example : (Predictor.new {} C01_exModel0 true).isOk = true ∧ (Predictor.new {} C01_exModel0 false).isOk = true := by decide
+
+/-- non-vacuity of `C11_predict_total_window0` on the same model (`WFModel0 C01_exModel0`, `SentOK C01_exSentence` are in
+`C01.lean`): prediction then tagging succeed, with and without score storing, and the final `a` gets the tag chosen by the
+character tag n-gram (character window 0); without tag prediction `predict` alone succeeds -/
+def predictTag0 (store : Bool) : Res (List Tag) :=
+  (Predictor.new {} C01_exModel0 true).bind fun p =>
+    (p.predict 7 C01_exSentence).bind fun s1 =>
+      (({ p with storeTagScores := store } : Predictor).predictTags s1).map (·.tags)
+
+example : predictTag0 true = .ok [none, none, some ['y']] ∧ predictTag0 false = .ok [none, none, some ['y']] := by decide
+example : ((Predictor.new {} C01_exModel0 false).bind fun p => p.predict 7 C01_exSentence).isOk = true := by decide
 
 def predict (cfg : Cfg) (pt : Bool) : Res (List Int) :=
   match Predictor.new cfg model pt with
